@@ -73,6 +73,7 @@ WORLD = {
         ("ivx", dict(N=4, nv=[2], k=1, vwindows="menu")),
         ("agg", dict(N=3, nv=[1, 2], k=1)),
         ("vcf", dict(nrec=2)),
+        ("liftscale", dict(ks=(5, 9, 20), npat=2)),
     ],
     "thorough": [
         ("selftest", {}),
@@ -90,6 +91,7 @@ WORLD = {
         ("ivx", dict(N=5, nv=[1, 2], k=2, vwindows="all")),
         ("agg", dict(N=4, nv=[1, 2], k=1)),
         ("vcf", dict(nrec=3)),
+        ("liftscale", dict(ks=(4, 5, 6, 9, 12, 20, 33), npat=3)),
     ],
 }
 
@@ -150,6 +152,34 @@ def run_lift(res, p, i, n):
     res.sample({"leg": "lift", "N": N, "edits": [[0, 1, ""], [1, 2, ""]], "blocks": [[0, 2]], "strand": "+", "form": "bare"})
 
 
+def run_lift_scale(res, p, i, n, tier):
+    """the scale family (vlib/worlds.py): many-block locations; every single variant whose reference interval (1-2 bp) starts at
+    a ladder position (first / second / a middle / the last block: block start, last base of the block, first base of the gap
+    behind it) with alt strings of 0-3 bases; whole-chromosome parent; collection and single-variant API"""
+    from vlib import worlds
+
+    idx = 0
+    for k, bl in worlds.scale_layouts(tier, offset=1, ks=p["ks"], npat=p["npat"]):
+        N = bl[-1][1] + 2
+        ladder = set()
+        for b_ in (bl[0], bl[1], bl[len(bl) // 2], bl[-1]):
+            ladder |= {b_[0], b_[1] - 1, b_[1]}
+        ivs = sorted({(s_, s_ + w_) for s_ in ladder for w_ in (1, 2) if s_ + w_ <= N})
+        for (s_, e_) in ivs:
+            for ln_ in range(4):
+                idx += 1
+                if idx % n != i:
+                    continue
+                edits = ((s_, e_, W.ALTS[0][ln_]),)
+                hap = C.Hap(N, 0, edits, None, seqless=False)
+                res.state(("haps", bl, edits))
+                for strand in "+-":
+                    C.lift_case(res, hap, bl, strand, "bare", "collection")
+                    C.lift_case(res, hap, bl, strand, "bare", "single")
+                    C.lift_case(res, hap, bl, strand, "chrom", "collection")
+    res.sample({"leg": "liftscale", "ks": list(p["ks"])})
+
+
 def run_shard(shard):
     res = ShardResult()
     leg, p = WORLD[shard["tier"]][shard["li"]]
@@ -170,6 +200,8 @@ def run_shard(shard):
         I.run_agg(res, p, i, n)
     elif leg == "vcf":
         VCF.run_vcf(res, p, i, n)
+    elif leg == "liftscale":
+        run_lift_scale(res, p, i, n, shard["tier"])
     else:
         raise ValueError(leg)
     if os.environ.get("VERIF_DEBUG"):  # debugging aid only: CPU seconds per leg (never part of normal evidence)
